@@ -127,6 +127,10 @@ type Cfg struct {
 	Tier     string
 	Sub      string
 	RTPoints int
+	// Tag names a fixed corpus scenario; it is appended to the trace id ("corpus_000(<tag>)").
+	// SkipModel appends "#skip-model": the trace is meant for the monitors only.
+	Tag       string
+	SkipModel bool
 }
 
 // NewG creates the chain of one history. opts.GenesisTime is defaulted by chain.
@@ -134,6 +138,12 @@ func NewG(c Cfg, opts chain.Options) *G {
 	id := fmt.Sprintf("%s_%03d", c.Family, c.N)
 	if c.Sub != "" {
 		id += "(" + c.Sub + ")"
+	}
+	if c.Tag != "" {
+		id += "(" + c.Tag + ")"
+	}
+	if c.SkipModel {
+		id += "#skip-model"
 	}
 	rec := chain.NewRecorder(id, c.Seed, opts)
 	g := &G{Family: c.Family, N: c.N, Seed: c.Seed, Tier: c.Tier, R: common.NewRng(c.Seed), Rec: rec, App: rec.App, Stats: newStats(), badPct: 22, paramFromGov: map[string]bool{}}
